@@ -65,7 +65,8 @@ class Gen:
 
     def __init__(self, seed, profile):
         self.R = random.Random(seed)
-        self.p = dict(calm=0.15, pF6=0.0005, fatal=0.0005, hibyte=True, faults=1.0, maxclients=4, quit=0.04, garbage=0.02)
+        # storm: per pass, the chance that the tcp device (device 0 of `mixp`) starts a telnet storm with stalled writes (see simulate)
+        self.p = dict(calm=0.15, pF6=0.0005, fatal=0.0005, hibyte=True, faults=1.0, maxclients=4, quit=0.04, garbage=0.02, storm=0.0)
         self.p.update(profile or {})
 
     world = None
@@ -245,13 +246,20 @@ def simulate(seed, N, profile=None, conf='mixp', fixed_ops=None, world=None):
     live = {}; sendq = collections.defaultdict(bytes)
     now = 0; ND = world.nd if world else 2; conn = [0] * ND; dfd = [-1] * ND; dto = [False] * ND; pending = [b""] * ND
     died = False; qop = "Q"; last_tmo = None
+    # A telnet storm with stalled writes on the tcp device (device 0 of `mixp`): for a stretch of passes (at least 18, and until the
+    # real code's output buffer has stayed at its capacity) the device is never reported writable and every pass offers 4000 bytes of
+    # `IAC DO ECHO` triples, each answered with `IAC WONT ECHO` queued in dev->to (cbuf, MAX_DEV_BUF = 65536, overwrite mode): the
+    # answers pile up beyond 64 KiB and the oldest are overwritten.  Then, writes still stalled, the device says what it had pending
+    # (the prompt the current script waits for), so that a `send` runs against the full buffer; then writes are allowed again.
+    storm = None; STREAM = b"\xff\xfd\x01"
     for it in range(N if fixed_ops is None else len(fixed_ops)):
         if fixed_ops is not None:
             op = fixed_ops[it]
         elif it == 0:
             op = "I 0 %d 0" % g.connans()
         else:
-            now += R.choice([0, 1000, 1000, 50000, 400000, 1000000, 2500000, 6000000] if R.random() < P['calm'] else [0, 1000, 1000, 50000, 400000])
+            if storm: now += R.choice([0, 0, 1000])          # the clock nearly stands still: no deadline passes during the storm
+            else: now += R.choice([0, 1000, 1000, 50000, 400000, 1000000, 2500000, 6000000] if R.random() < P['calm'] else [0, 1000, 1000, 50000, 400000])
             for fd, c in live.items():
                 if R.random() < 0.25 and len(sendq[fd]) < 300: sendq[fd] += g.clientline()
                 if len(sendq[fd]) > 100000: stats['request lines of 128 KiB and more offered'] += 1
@@ -277,11 +285,19 @@ def simulate(seed, N, profile=None, conf='mixp', fixed_ops=None, world=None):
                 if (rev & 1) and data: dl_c[fd] = data
                 elif data: sendq[fd] = data + sendq[fd]
             soe = 0
+            if storm is None and P.get('storm', 0.0) > 0 and not world and conf == 'mixp' and conn[0] == 2 and dfd[0] >= 0 and it < N - 30 and R.random() < P['storm']:
+                storm = dict(phase='flood', n=0, off=0, full=0, reached=False, left=0, bytes=0)
+                stats['telnet storms with stalled writes started'] += 1
             for di in range(ND):
                 if dfd[di] >= 0:
                     rev = 0; rk = 0; data = b""; cap = 1 << 20; r = R.random() / max(F, 1e-9)
                     if conn[di] == 2 and r < 0.10 and R.random() > P['calm']: r = 0.5
-                    if conn[di] == 1:
+                    if storm and di == 0 and conn[0] == 2:
+                        # never POLLOUT, no fault; flood: the next 4000 bytes of the endless stream of triples; answer: what was pending
+                        if storm['phase'] == 'flood': data = (STREAM * 1336)[storm['off']:storm['off'] + 4000]
+                        elif pending[0]: data = pending[0][:4000]; pending[0] = pending[0][4000:]
+                        rev = 1 if data else 0
+                    elif conn[di] == 1:
                         if r < 0.7: rev = 2
                         elif r < 0.8: rev = 2; soe = 1 if R.random() < P['pF6'] * 5 else 0
                         elif r < 0.9: rev = R.choice([4, 8, 12, 6, 10])
@@ -348,6 +364,10 @@ def simulate(seed, N, profile=None, conf='mixp', fixed_ops=None, world=None):
                 elif n is None: sendq[fd] = data + sendq[fd]
             for fd, (di, data) in dl_d.items():
                 n = took.get(fd)
+                if storm and storm['phase'] == 'flood' and di == 0:
+                    # the stream of triples goes on where the daemon stopped reading
+                    if n is not None and n > 0: storm['off'] = (storm['off'] + n) % 3; storm['bytes'] += n
+                    continue
                 if n is not None and 0 <= n < len(data): pending[di] = data[n:] + pending[di]; stats['device reads shorter than what was offered'] += 1
                 elif n is None: pending[di] = data + pending[di]
         for l in obs:
@@ -375,6 +395,25 @@ def simulate(seed, N, profile=None, conf='mixp', fixed_ops=None, world=None):
         for fd in list(live):
             if fd not in newlive: sendq.pop(fd, None)
         live = newlive
+        if storm and fixed_ops is None:
+            tolen = next((0 if l.split()[4] == "-" else len(l.split()[4]) // 2 for l in obs if l.startswith("O dev 0 to ")), 0)
+            if conn[0] != 2 or dfd[0] < 0:
+                stats['telnet storms ended by a disconnect'] += 1; storm = None
+            elif storm['phase'] == 'flood':
+                storm['n'] += 1
+                storm['full'] = storm['full'] + 1 if tolen == 65536 else 0
+                if storm['full'] >= 2 and not storm['reached']:
+                    # the dump stays at the capacity while answers keep being queued: the oldest are being overwritten
+                    storm['reached'] = True; stats['device output buffer overrun reached'] += 1
+                if (storm['reached'] and storm['n'] >= 18 and storm['full'] >= 3) or storm['n'] >= 160:
+                    if not storm['reached']: stats['telnet storms that did not reach the overrun'] += 1
+                    # finish the triple the stream stopped in, then what the device had to say
+                    pending[0] = (STREAM[storm['off']:] if storm['off'] else b"") + pending[0]
+                    storm['phase'] = 'answer'; storm['left'] = R.randint(4, 8)
+            else:
+                if tolen == 65536 and any(l.startswith("O dev 0 to ") and l.endswith("0a") for l in obs): stats['passes with a send text queued in a full device output buffer'] += 1
+                storm['left'] -= 1
+                if storm['left'] <= 0: storm = None
     teardown = None
     if not died:
         res = c_op(qop)
@@ -550,6 +589,17 @@ def compare(sim, chunks):
                 sim['stats']['death predicted: ' + pred[0]] += 1
             break
         a_, b_ = canon(co), canon(le)
+        if a_ != b_ and len(a_) == len(b_):
+            # A device write() that *fails* (EPIPE): cbuf_read_to_fd hands the kernel the queue in the pieces the ring has it in and
+            # stops at the first failure, so the simulated kernel saw only the first piece; the model has no ring layout and shows
+            # the whole queue as offered.  (Successful writes are compared byte for byte: both pieces are taken.  Since dev->to can
+            # stand at its capacity, where the ring is wrapped nearly always, this case is no longer rare.)  Such a line agrees when
+            # what the real code offered is a non-empty prefix of what the model offers.
+            for k_, (x, y) in enumerate(zip(a_, b_)):
+                if x != y and x.startswith("Y write ") and y.startswith("Y write ") and x.endswith(" E") and y.endswith(" E"):
+                    tx, ty = x.split(), y.split()
+                    if len(tx) == 5 and len(ty) == 5 and tx[2] == ty[2] and int(tx[2]) >= 2000 and tx[3] != "-" and ty[3].startswith(tx[3]) and len(ty[3]) // 2 > 1024:
+                        a_[k_] = y; sim['stats']['failed device writes of a wrapped ring: first piece offered only'] += 1
         if a_ != b_:
             d = []
             for a, b in zip(a_ + [""] * (len(b_) - len(a_)), b_ + [""] * (len(a_) - len(b_))):
